@@ -271,7 +271,7 @@ def run (ctx):
   f = repo.func('openflow.of_01:Connection.read'); L = framing.find_loop(repo, f); g = L.g
   for a in L.advance:
     fs = q.fact_strs(g, a[0])
-    good = any('== %s' % L.wlen in x or x.startswith('%s ==' % L.wlen) for x in fs)
+    good = any('== %s' % L.wlen in x or x.startswith('%s ==' % L.wlen) for x in fs) or (a[2] is not None and framing.advance_tied(L, g, a[0], norm(a[2])))
     ctx.ob('R-DOM', f, "decoded length is compared with the declared length before the cursor moves", good, "assert new_offset - offset == msg_length" if good else "facts %s" % fs, (f.module, a[0].ast), 'D4')
   f = repo.func('datapaths.switch:OFConnection.read'); L = framing.find_loop(repo, f); g = L.g
   chk = [n for n in g.nodes if n.kind == 'cond' and L.newoff and norm(n.ast) in ('%s != %s' % (L.newoff, L.wlen), '%s == %s' % (L.newoff, L.wlen))]
